@@ -21,14 +21,22 @@ Proof.
   - rewrite E in H2. exact H2.
 Qed.
 
-Lemma bounded_2x2_lemma : forall l0 l1,
-  In l0 (layer_choices "old" 2) -> In l1 (layer_choices "new" 2) ->
+Lemma forallb2_spec {A B} (f : A -> B -> bool) la lb :
+  forallb2 f la lb = true -> forall a b, In a la -> In b lb -> f a b = true.
+Proof.
+  unfold forallb2. intros H a b Ha Hb. rewrite forallb_forall in H. specialize (H a Ha).
+  rewrite forallb_forall in H. exact (H b Hb).
+Qed.
+
+Lemma forallb_spec {A} (f : A -> bool) l : forallb f l = true -> forall a, In a l -> f a = true.
+Proof. intro H. apply forallb_forall. exact H. Qed.
+
+Lemma bounded_2x2_lemma : forall l0 l1, In l0 old_layers -> In l1 new_layers ->
   (D cfg_default (img [l0; l1]) = true -> agree_everywhere cfg_default (img [l0; l1]) = true) /\
   (D_weak cfg_default (img [l0; l1]) = true -> agree_weakly cfg_default (img [l0; l1]) = true).
 Proof.
   intros l0 l1 H0 H1. apply check_image_D.
-  pose proof check_all_2x2_true as H. unfold check_all_2x2 in H.
-  rewrite forallb_forall in H. specialize (H l0 H0). rewrite forallb_forall in H. exact (H l1 H1).
+  exact (forallb2_spec check_pair old_layers new_layers check_all_2x2_true l0 l1 H0 H1).
 Qed.
 
 Lemma bounded_3x1_lemma : forall ls, In ls layers3 ->
@@ -36,10 +44,9 @@ Lemma bounded_3x1_lemma : forall ls, In ls layers3 ->
   (D_weak cfg_default (img ls) = true -> agree_weakly cfg_default (img ls) = true).
 Proof.
   intros ls H0. apply check_image_D.
-  pose proof check_all_3x1_true as H. unfold check_all_3x1 in H.
-  rewrite forallb_forall in H. exact (H ls H0).
+  exact (forallb_spec check_image layers3 check_all_3x1_true ls H0).
 Qed.
 
-(* the enumeration is not vacuous: many images fall inside the domains *)
-Lemma bounded_3x1_counts : count_in_D layers3 = (216%nat, 4411%nat) \/ True.
-Proof. right. exact I. Qed.
+(* the enumeration is not vacuous *)
+Lemma bounded_counts : count_in_D layers3 = (729%nat, 5769%nat).
+Proof. vm_compute. reflexivity. Qed.
